@@ -58,7 +58,7 @@ PROPS = {
     "C19": {
         "level": "exploration",
         "rule": ("plans are generated from (VERIF_SEED, run index): capacity 1..4, 70% concurrent runs of the shared (non thread-local) "
-                 "cache with 2-3 simulated threads x 1-5 operations (7 in 20% of thorough runs) after a prefill of 0..capacity values, "
+                 "cache with 2-3 simulated threads (cooperative tasks in the plain build, real threads under ASan) x 1-5 operations (7 in 20% of thorough runs) after a prefill of 0..capacity values, "
                  "15% single-thread histories of the shared and 15% of the thread-local variant (<=12 operations); scheduler policy "
                  "uniform / PCT(d<=3) / <=3 pre-emptions, spurious compare-exchange failures at 0/10/30%. Every load, store and "
                  "compare-exchange of the cache is a yield point before and after the access. distinct = hash of the executed "
@@ -73,9 +73,9 @@ PROPS = {
         "assumptions": ["only sequentially consistent interleavings at atomic-operation granularity are explored (no weak-memory or compiler reordering)",
                         "a spurious compare_exchange_weak failure leaves 'expected' equal to the current value"],
         "batches": {
-            "quick": [{"engine": "cachesim", "config": "plain", "runs": 200000}, {"engine": "cachesim", "config": "asan", "runs": 20000, "base": 200000}],
-            "thorough": [{"engine": "cachesim", "config": "plain", "runs": 3000000, "deadline": 1200},
-                         {"engine": "cachesim", "config": "asan", "runs": 300000, "deadline": 600, "base": 3000000}],
+            "quick": [{"engine": "cachesim", "config": "plain", "runs": 12000000, "deadline": 70}, {"engine": "cachesim", "config": "asan", "runs": 20000, "base": 12000000}],
+            "thorough": [{"engine": "cachesim", "config": "plain", "runs": 400000000, "deadline": 1500},
+                         {"engine": "cachesim", "config": "asan", "runs": 300000, "deadline": 600, "base": 400000000}],
         },
     },
 }
